@@ -95,8 +95,8 @@ def sampleTerm (pi x0 : Rat) (t : Term) : Obs :=
   | .delta n =>
       -- c e^{j2πph} e^{j2πθx} δ^{(n)}(a x + b) = c/(|a| a^n) e^{j2π(ph + θ x*)} δ^{(n)}(x − x*),  x* = −b/a   (n = 0 or θ = 0)
       if n != 0 && t.th != 0 then .unsupported else
-      let xs := -t.b / t.a
-      let w := CQ.smul (1 / (rabs t.a * t.a ^ n)) t.c
+      let xs := deltaLoc t
+      let w := deltaWeight n t
       if w.isZero then .ok [] else
       let (p, w') := foldPhase (t.ph + t.th * xs) w
       .ok [⟨true, n, xs, 0, 0, p, [], w'⟩]
